@@ -2,6 +2,7 @@
 from __future__ import annotations
 
 import copy
+import zlib
 import re
 import xml.etree.ElementTree as ET
 
@@ -184,6 +185,14 @@ def c14_case(draw):
 
         wrap(noisy_root)
     noisy = docs.serialize(noisy_root, root=True, extra_ns=noise.FOREIGN_NS if foreign else "", prolog=prolog)
+    if zlib.crc32(base.encode()) % 4 == 0:
+        # both documents also declare the SVG namespace under a prefix next to the default declaration (plain-SVG
+        # exports do): whether that declaration survives must not depend on the noise (choice = checksum of the
+        # text, no random draw spent)
+        both = ' xmlns:svg="http://www.w3.org/2000/svg"'
+        base = docs.serialize(root, root=True, extra_ns=both.strip())
+        noisy = docs.serialize(noisy_root, root=True, extra_ns=(both.strip() + " " + noise.FOREIGN_NS) if foreign else both.strip(), prolog=prolog)
+        labels.append("svg-prefix-declared-on-both-roots")
     case = {"base": base, "noisy": noisy, "noise": labels, "feat": feat}
     case["ndigits"] = draw(st.sampled_from([3, 3, 3, 5, 6, 1, 0] + ([5, 6, 4] if marked else [])))
     # the XML declaration is only legal for str input without an encoding pseudo-attribute / for bytes input
